@@ -201,6 +201,17 @@ def helloOk (stream : Bytes) : Bool :=
   | some n => n ≤ stream.length
   | none => false
 
+/-- What the model of the code forwards on one connection: (tunnel established, what the upstream has before
+the copy phase, what the copy phase forwards, what was read ahead with the ClientHello). -/
+def predictConn (path : String) (routed : Bool) (line : Bytes) (s : Script) : Bool × Bytes × Bytes × Bytes :=
+  let codeLine := if path == "dyn" && !dynWritesProxyHeader then [] else line
+  if path == "sni" then
+    let r := sniServe codeCopySrc routed codeLine s
+    let x := (sniServe .rawConn routed codeLine s).excess
+    if r.stage == .tunnel then (true, codeLine ++ r.hello, r.upstream.drop (codeLine ++ r.hello).length, x)
+    else (false, [], [], x)
+  else if routed then (true, codeLine, (tcpServe [] s).1, []) else (false, [], [], [])
+
 def tunnelH : Handler := fun inp impl => do
   let path ← inp.getObjValAs? String "path"
   let pxy ← inp.getObjValAs? Bool "pxy" <|> pure false
@@ -223,25 +234,37 @@ def tunnelH : Handler := fun inp impl => do
   let line := if pxy then proxyLineFor ra la else []
   let stream := streamOf s
   -- the model of the code as it is
-  let codeLine := if path == "dyn" && !dynWritesProxyHeader then [] else line
-  let (tunnel, pre, fwd, excess) : Bool × Bytes × Bytes × Bytes :=
-    if path == "sni" then
-      let r := sniServe codeCopySrc routed codeLine s
-      let x := (sniServe .rawConn routed codeLine s).excess
-      if r.stage == .tunnel then (true, codeLine ++ r.hello, r.upstream.drop (codeLine ++ r.hello).length, x)
-      else (false, [], [], x)
-    else if routed then (true, codeLine, (tcpServe [] s).1, []) else (false, [], [], [])
-  let t := scenario .firstEnds pre fwd ustream reply order
+  let (tunnel, pre, fwd, excess) := predictConn path routed line s
+  let t := scenario codeMode pre fwd ustream reply order
   let (mup, mcl) := if tunnel then (t.upSaw, t.clSaw) else ([], [])
   let mburst := if tunnel then burst else 0
-  let m := Json.mkObj [("up", hexEncode mup), ("cl", hexEncode mcl), ("burst_got", mburst), ("burst_ok", true)]
+  -- an earlier connection through the same handler instance (the handler keeps nothing between connections:
+  -- the model of a connection has no state parameter): its stream, then EOF
+  let warm := (inp.getObjVal? "warm").toOption.filter (· != Json.null)
+  let wstream ← match warm with
+    | some w => (do let x ← w.getObjValAs? String "data"; hexDecode x)
+    | none => pure []
+  let wra := (impl.getObjValAs? String "warm_raddr").toOption.getD ""
+  let wla := (impl.getObjValAs? String "warm_laddr").toOption.getD ""
+  let wline := if pxy then proxyLineFor wra wla else []
+  let iwup ← (do let x ← impl.getObjValAs? String "warm_up"; hexDecode x) <|> pure []
+  let wTunnel := (impl.getObjValAs? String "warm_lookup").toOption == some "hit"
+  let mwup := match warm with
+    | some _ =>
+      let (wt, wpre, wfwd, _) := predictConn path routed wline [.chunk wstream, .eof]
+      if wt then wpre ++ wfwd else []
+    | none => []
+  let m := Json.mkObj [("up", hexEncode mup), ("cl", hexEncode mcl), ("burst_got", mburst), ("burst_ok", true),
+    ("warm_up", hexEncode mwup)]
+  let timeouts := (inp.getObjValAs? Nat "rt_ms").toOption.getD 0 > 0 || (inp.getObjValAs? Nat "wt_ms").toOption.getD 0 > 0
   -- the specification, on what the endpoints actually received
   -- "once a connection is tunnelled": the proxy's own Lookup call returned a target (observed, so that a
   -- shrunk input whose `routed`/`host` fields no longer fit its bytes cannot fake a failure)
   let expectTunnel := (impl.getObjValAs? String "lookup").toOption == some "hit"
   let wantUp := line ++ stream
   let wantCl := ustream ++ reply
-  let spec := !expectTunnel || (iup == wantUp && icl == wantCl && ibg == burst && ibok)
+  let spec := (!expectTunnel || (iup == wantUp && icl == wantCl && ibg == burst && ibok)) &&
+    (warm.isNone || !wTunnel || iwup == wline ++ wstream)
   let segs := numChunks s
   let tag :=
     if !expectTunnel then path ++ "-no-tunnel"
@@ -250,8 +273,9 @@ def tunnelH : Handler := fun inp impl => do
     else if path == "dyn" && pxy && !dynWritesProxyHeader then "dyn-pxyproto-ignored"
     else path ++ (match order with | .client => "-client" | .upstream => "-upstream" | .halfClose => "-half") ++
       (if excess != [] then "-readahead" else "") ++ (if pxy then "-pxy" else "") ++
-      (if late then "-late" else "") ++ (if burst > 0 then "-burst" else "")
-  return ({ model := m, agree := mup == iup && mcl == icl && mburst == ibg && ibok, spec := spec,
+      (if late then "-late" else "") ++ (if burst > 0 then "-burst" else "") ++
+      (if warm.isSome then "-second" else "") ++ (if timeouts then "-timeouts" else "")
+  return ({ model := m, agree := mup == iup && mcl == icl && mburst == ibg && ibok && mwup == iwup, spec := spec,
             nontrivial := expectTunnel && stream != [] && (segs ≥ 2 || ustream != []),
             tag := tag } : Verdict).toJson
 
@@ -269,7 +293,7 @@ def wsH : Handler := fun inp impl => do
   let ibg := (impl.getObjValAs? Nat "burst_got").toOption.getD 0
   let ibok := (impl.getObjValAs? Bool "burst_ok").toOption.getD true
   let stream := streamOf s
-  let t := scenario .firstEnds [] (tcpServe [] s).1 (extra ++ ustream) reply order
+  let t := scenario codeMode [] (tcpServe [] s).1 (extra ++ ustream) reply order
   let m := Json.mkObj [("up", hexEncode t.upSaw), ("cl", hexEncode t.clSaw), ("burst_got", burst), ("burst_ok", true)]
   let wantCl := extra ++ ustream ++ reply
   let spec := hs && iup == stream && icl == wantCl && ibg == burst && ibok
